@@ -43,7 +43,12 @@ class UTCTimeHandler(RequestHandlerBase):
             return flask.make_response('Invalid CGI parameters', 400)
         now = datetime.datetime.now(tz=UTC())
         if options.clockDrift:
-            now -= datetime.timedelta(seconds=options.clockDrift)
+            try:
+                now -= datetime.timedelta(seconds=options.clockDrift)
+            except OverflowError as err:
+                # the drifted time is outside of the range of datetime
+                logging.error('Invalid clockDrift: %s', err)
+                return flask.make_response('Invalid CGI parameters', 400)
         headers = {
             'Content-Type': 'text/plain',
             'Date': now.strftime(r'%a, %d %b %Y %H:%M:%S %Z'),
